@@ -200,6 +200,11 @@ def adjoint_tests(which):
             c0, g = f(X)
             fd = (f(X + h * d)[0] - f(X - h * d)[0]) / (2 * h)
             check(name + '-gradient', bool(np.isclose((g * d).sum(), fd, rtol=1e-4, atol=1e-8)))
+        # what makes the returned expression the true gradient: alpha, beta are the least-squares gain and bias, so the cost does
+        # not change when the model is rescaled and offset (its documented purpose) and its partial derivatives in them vanish
+        ga, of = float(rng.uniform(0.2, 5)), float(rng.uniform(-3, 3))
+        check('bias_and_gain_invariant_error-is-invariant',
+              bool(np.isclose(cst.bias_and_gain_invariant_error(ga * Mo + of, D, mask)[0], cst.bias_and_gain_invariant_error(Mo, D, mask)[0], rtol=1e-9, atol=1e-12)))
     else:
         DM = get('prysm.x.dm.DM')
         s = int(rng.choice([32, 33]))
